@@ -348,6 +348,9 @@ pub(crate) enum Step {
     Raw(usize),
     /// inbound echo request with this ICMP length (header+data >= 8)
     Echo(usize),
+    /// configuration pseudo-step, only as the first step: the interface's IPv4 identification
+    /// counter starts at this value (instead of wherever the default seed puts it)
+    IdStart(u16),
 }
 impl Step {
     fn to_json(self) -> Value {
@@ -355,6 +358,7 @@ impl Step {
             Step::Udp(n) => json!(["udp", n]),
             Step::Raw(n) => json!(["raw", n]),
             Step::Echo(n) => json!(["echo", n]),
+            Step::IdStart(v) => json!(["id-start", v]),
         }
     }
     fn from_json(v: &Value) -> Option<Step> {
@@ -363,6 +367,7 @@ impl Step {
             "udp" => Some(Step::Udp(n)),
             "raw" => Some(Step::Raw(n)),
             "echo" => Some(Step::Echo(n)),
+            "id-start" => Some(Step::IdStart(n as u16)),
             _ => None,
         }
     }
@@ -371,6 +376,7 @@ impl Step {
         match self {
             Step::Udp(n) => 28 + n,
             Step::Raw(n) | Step::Echo(n) => 20 + n,
+            Step::IdStart(_) => 0,
         }
     }
 }
@@ -390,7 +396,11 @@ pub(crate) struct ScenarioResult {
 /// None and nothing more comes out.
 pub(crate) fn run_scenario(eth: bool, ip_mtu: usize, steps: &[Step]) -> ScenarioResult {
     let mut viols = vec![];
-    let mut net = match Net::new(eth, ip_mtu) {
+    let id_start = match steps.first() {
+        Some(Step::IdStart(v)) => Some(*v),
+        _ => None,
+    };
+    let mut net = match Net::new_id(eth, ip_mtu, id_start) {
         Ok(n) => n,
         Err(e) => {
             return ScenarioResult { viols, machinery: vec![e], frames: vec![], n_frames: 0, polls: 0, outcomes: vec![], udp_zero_cksum: 0 }
@@ -406,6 +416,10 @@ pub(crate) fn run_scenario(eth: bool, ip_mtu: usize, steps: &[Step]) -> Scenario
         let must_fit = st.ip_len() <= ip_mtu || st.ip_len() <= fragbuf;
         let mut accepted = true;
         let ei = match *st {
+            Step::IdStart(_) => {
+                outcomes.push("config");
+                continue;
+            }
             Step::Udp(n) => {
                 let p = pattern(n, salt);
                 accepted = net.udp_send(hu, &p).is_ok();
@@ -645,6 +659,49 @@ pub(crate) fn run_s1b(rep: &mut Report, tier: Tier) {
         json!({"what": "two datagrams one after the other on one interface, each polled to quiescence; kinds udp / raw / inbound echo request (reply is ingress-triggered)",
             "domain": {"media": ["ip", "ethernet"], "ip_mtu": mtu, "kinds": ["udp", "raw", "echo"], "ip_payload_lengths": lens},
             "pairs": cases.len(), "frames_checked": frames, "polls": polls, "outcomes_per_datagram": outcomes}),
+    );
+}
+
+/// S1c: the identification counter around its wrap-around. Three datagrams one after the
+/// other on an interface whose counter starts at 0xfffd / 0xfffe / 0xffff: the tracker binds
+/// every (src, dst, protocol, identification) to one datagram for the whole scenario, so two
+/// different fragmented datagrams under one identification are reported as
+/// `C12/tx/once/fragment-duplicated-or-overlapping` or `C12/tx/mixed/...`.
+pub(crate) fn run_s1c(rep: &mut Report, tier: Tier) {
+    let mtu = 100usize;
+    let lens: Vec<usize> = match tier {
+        Tier::Quick => vec![108, 208],
+        Tier::Thorough => vec![81, 108, 208, 400],
+    };
+    let starts = [0xfffdu16, 0xfffe, 0xffff];
+    let mk = |k: u8, l: usize| match k {
+        0 => Step::Udp(l - 8),
+        1 => Step::Raw(l),
+        _ => Step::Echo(l),
+    };
+    let opts: Vec<Step> = (0..3u8).flat_map(|k| lens.iter().map(move |&l| (k, l))).map(|(k, l)| mk(k, l)).collect();
+    let mut cases = vec![];
+    for eth in [false, true] {
+        for &s in &starts {
+            for &a in &opts {
+                for &b in &opts {
+                    for &c in &opts {
+                        cases.push((eth, mtu, vec![Step::IdStart(s), a, b, c]));
+                    }
+                }
+            }
+        }
+    }
+    let (outcomes, frames, polls, _) = sweep(rep, "s1c", &cases);
+    rep.add_count("states", cases.len() as u64);
+    rep.add_count("transitions", cases.len() as u64);
+    rep.add_count("evaluations", cases.len() as u64);
+    rep.add_count("real_code_steps", polls);
+    rep.cov(
+        "s1c",
+        json!({"what": "three datagrams one after the other on an interface whose IPv4 identification counter starts just below its wrap-around (Config::random_seed chosen by inverting the PCG32, start value verified through the verif_digest hook); every (src,dst,protocol,id) may name one datagram only",
+            "domain": {"media": ["ip", "ethernet"], "ip_mtu": mtu, "id_start": starts, "kinds": ["udp", "raw", "echo"], "ip_payload_lengths": lens},
+            "triples": cases.len(), "frames_checked": frames, "polls": polls, "outcomes_per_datagram": outcomes}),
     );
 }
 
